@@ -62,13 +62,14 @@ class Config:
     init: str = "engine"  # engine / user
     nbr_vsl: bool = False  # neighbour links are LinkWithVsl
     history: tuple = ()  # earlier Network.step calls on the same objects: ((flags, engine_arg), ...)
+    vsl_empty: bool = False  # LinkWithVsl without any sign installed (segments_with_vsl = {})
 
     def label(self) -> str:
         o = self.u_origin or "-"
         if self.u_otype:
             o += f"({self.u_otype})"
         return (
-            f"{self.link_cls}{'[N=1]' if self.n1 else ('[N=4,vsl=1,3]' if self.link_cls == 'LinkWithVsl' else '[N>=2]')} "
+            f"{self.link_cls}{'[N=1]' if self.n1 else ('[N=4,vsl=' + ('none' if self.vsl_empty else '1,3') + ']' if self.link_cls == 'LinkWithVsl' else '[N>=2]')} "
             f"U(in={self.u_in},origin={o},out={self.u_out}) "
             f"D(in={self.d_in},dest={self.d_dest or '-'},out={self.d_out})"
             f"{' delta' if self.delta else ''}{' phi' if self.phi else ''}"
@@ -156,6 +157,7 @@ def enumerate_configs(tier: str, impls=("casadi", "numpy"), flags_mode="none"):
         Config(link_cls="LinkWithVsl", u_in=0, u_origin="MainstreamOrigin", d_dest="CongestedDestination", d_out=0, n1=True),
         Config(u_in="many", u_origin="SimplifiedMeteredOnRamp", u_otype="limited", d_dest="Destination", d_out=0, delta=True),
         Config(u_in=0, u_origin="Origin", d_out=1, phi=True),
+        Config(link_cls="LinkWithVsl", vsl_empty=True, u_in=1, d_out=1, delta=True, phi=True),
         Config(u_in=1, u_origin="SimplifiedMeteredOnRamp", u_otype="unlimited", d_out="many", delta=True),
     ]
     for impl in impls:
@@ -255,6 +257,8 @@ class World:
                 o.attrs["N"] = 4
             nn = o.attrs["N"]
             o.attrs["vsl"] = sorted({min(1, nn - 1), nn - 1})
+            if role == "SELF" and getattr(self.cfg, "vsl_empty", False):
+                o.attrs["vsl"] = []
             o.attrs["alpha"] = self._param(role, "alpha")
             self.env.n1[role] = nn
             self.env.n1[role + ".vsl"] = len(o.attrs["vsl"])
@@ -341,7 +345,8 @@ class World:
                 # (the caller's dictionaries list the variables in an order of their own)
                 d = {}
                 if o.cls == LINKVSL:
-                    d["v_ctrl"] = TV(E.V("v_ctrl", o.ident + ".vsl"), 1, False, "caller array v_ctrl")
+                    d["v_ctrl"] = TV(E.V("v_ctrl", o.ident + ".vsl") if o.attrs["vsl"] else E.vcat(), 1, False,
+                                     "caller array v_ctrl")
                 d["v"] = self._state("v", o, caller=True)
                 d["rho"] = self._state("rho", o, caller=True)
                 self.init_conditions[o] = d
@@ -732,6 +737,8 @@ class World:
             if self.env.nseg(role + ".vsl") != n:
                 it.event("var-length", node, f"{name} created with length {n}, the link has "
                                              f"{self.env.nseg(role + '.vsl')} limited segments")
+            if n == 0:
+                return TV(E.vcat(), 1, False, f"variable {var} of {role} (no entries)")
             return TV(E.V(var, role + ".vsl"), 1, False, f"variable {var} of {role}")
         if isinstance(n, int) and not isinstance(n, bool) and o.kind == "link" and o.attrs.get("N") == n \
                 and var in ("rho", "v"):
